@@ -190,7 +190,7 @@ def run_case(case):
         sizes = [int(x) for x in rng.integers(2, 12, k)]
         grids = {f"c{i}": np.linspace(0.3 + 0.1 * i, 3.0 + i, sizes[i]) for i in range(k)}
         B = int(rng.integers(8, 200))
-        form = int(rng.integers(0, 4))
+        form = int(rng.integers(0, 6))
         cs = list(grids)
         coef = [round(float(x), 4) for x in rng.uniform(0.2, 1.5, 6)]
         if form == 0:
@@ -199,11 +199,16 @@ def run_case(case):
             body = " * ".join(f"xp.exp(-{coef[i]} * {c})" for i, c in enumerate(cs)) + " * xp.sin(s + " + " + ".join(cs) + ")"
         elif form == 2:
             body = " + ".join(f"{coef[i]} * {c} - 0.{i + 1} * {c} ** 2 * s" for i, c in enumerate(cs)) + " + 0.01 * s ** 3"
-        else:
+        elif form == 3:
             body = f"xp.log(s + {coef[0]}) - " + " - ".join(f"({c} - s * {coef[i + 1]}) ** 2" for i, c in enumerate(cs))
+        else:
+            # the structure lcm itself produces: utility + beta * interpolated continuation value
+            body = " + ".join(f"{coef[i]} * xp.log({c})" for i, c in enumerate(cs)) + f" + 0.{93 + form} * xp.interp(1.04 * (s - 0.3 * (" + " + ".join(cs) + ")) + 0.7, VGRID, VVALS)"
         feas = " + ".join(cs) + f" <= s * {round(1.0 + k * 0.8, 2)} + 0.5"
         src = f"def u_and_f(s, {', '.join(cs)}):\n    return {body}, {feas}\n"
-        nsj, nsn = {"xp": jnp}, {"xp": np}
+        vgrid = np.linspace(-2.0, 9.0, 12)
+        vvals = np.cumsum(rng.uniform(0.1, 1.0, 12)) ** 0.7
+        nsj, nsn = {"xp": jnp, "VGRID": jnp.asarray(vgrid), "VVALS": jnp.asarray(vvals)}, {"xp": np, "VGRID": vgrid, "VVALS": np.asarray(jnp.asarray(vvals), dtype=float)}
         exec(src, nsj)  # noqa: S102
         exec(src, nsn)  # noqa: S102
         s_vals = np.sort(rng.uniform(0.2, 6.0, B))
